@@ -27,4 +27,7 @@ def run(chk, prog, tier):
     except ImportError:
         ERR = None
     if ERR is not None:
-        ERR.c10_rules(chk, prog, tab)
+        ERR.c10_rules(chk, prog, tab) if hasattr(ERR, "c10_rules") else None
+    chk.explanation = ("Decides: every row accepts only operand-kind tuples the ISA defines for that form (rows x kind strings, "
+                       "against the x86 reference), the kind-string -> format map, the scale set. Known findings: the \"\"/\"i\" "
+                       "format conflation (per row). NOT decided: which concrete strings reach which check.")
